@@ -1,0 +1,445 @@
+//go:build verif
+
+package ugo
+
+import "github.com/ozanh/ugo/token"
+
+// Specification vocabulary for the //@ contracts in verif_contracts.go.
+// Pure, loop-free Go; translated by the same pipeline as the code and run as
+// ordinary Go when a counterexample is replayed.
+
+// verifGlobals states what the contracts assume about package-level variables
+// that are initialised once and never assigned again.
+func verifGlobals() bool {
+	return ErrZeroDivision != nil && ErrType != nil && ErrInvalidOperator != nil &&
+		ErrZeroDivision != ErrType && ErrInvalidOperator != ErrType && ErrInvalidOperator != ErrZeroDivision &&
+		Undefined != nil && specIsUndefined(Undefined) &&
+		True == Bool(true) && False == Bool(false)
+}
+
+type specKind int
+
+const (
+	kOther specKind = iota
+	kInt
+	kUint
+	kFloat
+	kChar
+	kBool
+	kString
+	kBytes
+	kUndefined
+)
+
+func specKindOf(o Object) specKind {
+	switch o.(type) {
+	case Int:
+		return kInt
+	case Uint:
+		return kUint
+	case Float:
+		return kFloat
+	case Char:
+		return kChar
+	case Bool:
+		return kBool
+	case String:
+		return kString
+	case Bytes:
+		return kBytes
+	case *UndefinedType:
+		return kUndefined
+	}
+	return kOther
+}
+
+func specIsUndefined(o Object) bool {
+	_, ok := o.(*UndefinedType)
+	return ok
+}
+
+// validObj: type invariant of Object inputs: non-nil, and the only value of
+// type *UndefinedType is the singleton Undefined.
+func validObj(o Object) bool {
+	return o != nil && (!specIsUndefined(o) || o == Undefined)
+}
+
+func specIsNum(o Object) bool {
+	k := specKindOf(o)
+	return k == kInt || k == kUint || k == kFloat || k == kChar || k == kBool
+}
+
+// specI64 widens int, char (sign-extended) and bool (0/1) to int64 and
+// reinterprets uint.
+func specI64(o Object) int64 {
+	switch v := o.(type) {
+	case Int:
+		return int64(v)
+	case Uint:
+		return int64(v)
+	case Char:
+		return int64(v)
+	case Bool:
+		if v {
+			return 1
+		}
+	}
+	return 0
+}
+
+func specF64(o Object) float64 {
+	switch v := o.(type) {
+	case Int:
+		return float64(v)
+	case Uint:
+		return float64(v)
+	case Float:
+		return float64(v)
+	case Char:
+		return float64(v)
+	case Bool:
+		if v {
+			return 1
+		}
+	}
+	return 0
+}
+
+// specCmpKind: the common kind two numeric-like operands are compared in:
+// float64 if either is float, else uint64 if either is uint, else int64.
+func specCmpKind(a, b Object) specKind {
+	ka, kb := specKindOf(a), specKindOf(b)
+	if ka == kFloat || kb == kFloat {
+		return kFloat
+	}
+	if ka == kUint || kb == kUint {
+		return kUint
+	}
+	return kInt
+}
+
+func specNumEq(a, b Object) bool {
+	switch specCmpKind(a, b) {
+	case kFloat:
+		return specF64(a) == specF64(b)
+	case kUint:
+		return uint64(specI64(a)) == uint64(specI64(b))
+	}
+	return specI64(a) == specI64(b)
+}
+
+func specNumLess(a, b Object) bool {
+	switch specCmpKind(a, b) {
+	case kFloat:
+		return specF64(a) < specF64(b)
+	case kUint:
+		return uint64(specI64(a)) < uint64(specI64(b))
+	}
+	return specI64(a) < specI64(b)
+}
+
+// specText: the text of a string or bytes value.
+func specText(o Object) string {
+	switch v := o.(type) {
+	case String:
+		return string(v)
+	case Bytes:
+		return string(v)
+	}
+	return ""
+}
+
+func specIsText(o Object) bool {
+	k := specKindOf(o)
+	return k == kString || k == kBytes
+}
+
+// specEq is the equality relation `==` is meant to compute on the scalar
+// kinds, strings, bytes and undefined.
+func specEq(a, b Object) bool {
+	if specIsNum(a) && specIsNum(b) {
+		return specNumEq(a, b)
+	}
+	if specIsText(a) && specIsText(b) {
+		return specText(a) == specText(b)
+	}
+	if specIsUndefined(a) || specIsUndefined(b) {
+		return specIsUndefined(a) && specIsUndefined(b)
+	}
+	return false
+}
+
+// specScalar: the kinds covered by the operator contracts.
+func specScalar(o Object) bool {
+	return specKindOf(o) != kOther && validObj(o)
+}
+
+// ---------------------------------------------------------------------------
+// Arithmetic
+
+type specOutcome int
+
+const (
+	oUnspecified specOutcome = iota // documentation silent or contradictory: only "no panic, documented error kinds"
+	oValue
+	oZeroDiv
+	oTypeErr
+	oUndefinedOp // undefined operation: must be one of the two documented errors
+)
+
+// specArithKind: kind in which an arithmetic/bitwise/shift operator is
+// evaluated (docs/operators.md rules); kOther where the rules contradict each
+// other ((float,char), (char,float), (bool,float), (bool,char)).
+func specArithKind(a, b Object) specKind {
+	ka, kb := specKindOf(a), specKindOf(b)
+	if (ka == kFloat && kb == kChar) || (ka == kChar && kb == kFloat) ||
+		(ka == kBool && (kb == kFloat || kb == kChar)) {
+		return kOther
+	}
+	switch {
+	case ka == kFloat || kb == kFloat:
+		return kFloat
+	case ka == kChar || kb == kChar:
+		return kChar
+	case ka == kUint || kb == kUint:
+		return kUint
+	}
+	return kInt
+}
+
+func specIsArithTok(tok token.Token) bool {
+	switch tok {
+	case token.Add, token.Sub, token.Mul, token.Quo, token.Rem, token.And, token.Or,
+		token.Xor, token.AndNot, token.Shl, token.Shr:
+		return true
+	}
+	return false
+}
+
+func specIsOrderTok(tok token.Token) bool {
+	switch tok {
+	case token.Less, token.LessEq, token.Greater, token.GreaterEq:
+		return true
+	}
+	return false
+}
+
+func specIntOp(tok token.Token, a, b int64) (specOutcome, int64) {
+	switch tok {
+	case token.Add:
+		return oValue, a + b
+	case token.Sub:
+		return oValue, a - b
+	case token.Mul:
+		return oValue, a * b
+	case token.Quo:
+		if b == 0 {
+			return oZeroDiv, 0
+		}
+		return oValue, a / b
+	case token.Rem:
+		if b == 0 {
+			return oZeroDiv, 0
+		}
+		return oValue, a % b
+	case token.And:
+		return oValue, a & b
+	case token.Or:
+		return oValue, a | b
+	case token.Xor:
+		return oValue, a ^ b
+	case token.AndNot:
+		return oValue, a &^ b
+	case token.Shl:
+		if b < 0 {
+			return oUndefinedOp, 0
+		}
+		return oValue, a << uint64(b)
+	case token.Shr:
+		if b < 0 {
+			return oUndefinedOp, 0
+		}
+		return oValue, a >> uint64(b)
+	}
+	return oTypeErr, 0
+}
+
+func specUintOp(tok token.Token, a, b uint64) (specOutcome, uint64) {
+	switch tok {
+	case token.Add:
+		return oValue, a + b
+	case token.Sub:
+		return oValue, a - b
+	case token.Mul:
+		return oValue, a * b
+	case token.Quo:
+		if b == 0 {
+			return oZeroDiv, 0
+		}
+		return oValue, a / b
+	case token.Rem:
+		if b == 0 {
+			return oZeroDiv, 0
+		}
+		return oValue, a % b
+	case token.And:
+		return oValue, a & b
+	case token.Or:
+		return oValue, a | b
+	case token.Xor:
+		return oValue, a ^ b
+	case token.AndNot:
+		return oValue, a &^ b
+	case token.Shl:
+		return oValue, a << b
+	case token.Shr:
+		return oValue, a >> b
+	}
+	return oTypeErr, 0
+}
+
+func specCharOp(tok token.Token, a, b rune) (specOutcome, rune) {
+	switch tok {
+	case token.Add:
+		return oValue, a + b
+	case token.Sub:
+		return oValue, a - b
+	case token.Mul:
+		return oValue, a * b
+	case token.Quo:
+		if b == 0 {
+			return oZeroDiv, 0
+		}
+		return oValue, a / b
+	case token.Rem:
+		if b == 0 {
+			return oZeroDiv, 0
+		}
+		return oValue, a % b
+	case token.And:
+		return oValue, a & b
+	case token.Or:
+		return oValue, a | b
+	case token.Xor:
+		return oValue, a ^ b
+	case token.AndNot:
+		return oValue, a &^ b
+	case token.Shl:
+		if b < 0 {
+			return oUndefinedOp, 0
+		}
+		return oValue, a << uint32(b)
+	case token.Shr:
+		if b < 0 {
+			return oUndefinedOp, 0
+		}
+		return oValue, a >> uint32(b)
+	}
+	return oTypeErr, 0
+}
+
+func specFloatOp(tok token.Token, a, b float64) (specOutcome, float64) {
+	switch tok {
+	case token.Add:
+		return oValue, a + b
+	case token.Sub:
+		return oValue, a - b
+	case token.Mul:
+		return oValue, a * b
+	case token.Quo:
+		if b == 0 {
+			return oZeroDiv, 0
+		}
+		return oValue, a / b
+	}
+	return oTypeErr, 0
+}
+
+// specArith: outcome class and value of `a tok b` for an arithmetic, bitwise
+// or shift operator on two numeric-like operands.
+func specArith(tok token.Token, a, b Object) (specOutcome, Object) {
+	if !specIsNum(a) || !specIsNum(b) || !specIsArithTok(tok) {
+		return oUnspecified, nil
+	}
+	switch specArithKind(a, b) {
+	case kInt:
+		o, v := specIntOp(tok, specI64(a), specI64(b))
+		return o, Int(v)
+	case kUint:
+		o, v := specUintOp(tok, uint64(specI64(a)), uint64(specI64(b)))
+		return o, Uint(v)
+	case kFloat:
+		o, v := specFloatOp(tok, specF64(a), specF64(b))
+		return o, Float(v)
+	case kChar:
+		ka, kb := specKindOf(a), specKindOf(b)
+		if (ka == kInt || ka == kUint || kb == kInt || kb == kUint) && tok != token.Add && tok != token.Sub {
+			// char mixed with int/uint supports + and - only
+			return oTypeErr, nil
+		}
+		o, v := specCharOp(tok, rune(specI64(a)), rune(specI64(b)))
+		return o, Char(v)
+	}
+	return oUnspecified, nil
+}
+
+func specArithOut(tok token.Token, a, b Object) specOutcome {
+	o, _ := specArith(tok, a, b)
+	return o
+}
+
+func specArithVal(tok token.Token, a, b Object) Object {
+	_, v := specArith(tok, a, b)
+	return v
+}
+
+// specOrderDefined: the relational operators <, <=, >, >= have a value for
+// (a, b): numeric-like pairs except those involving float with char and bool
+// on the left of float/char; text with text; anything with undefined.
+func specOrderDefined(a, b Object) bool {
+	if specIsUndefined(a) || specIsUndefined(b) {
+		return true
+	}
+	if specIsNum(a) && specIsNum(b) {
+		return specArithKind(a, b) != kOther
+	}
+	return specIsText(a) && specIsText(b)
+}
+
+// specLess: the strict order `<` is meant to compute where it is defined.
+// undefined is below every other value.
+func specLess(a, b Object) bool {
+	if specIsUndefined(a) {
+		return !specIsUndefined(b)
+	}
+	if specIsUndefined(b) {
+		return false
+	}
+	if specIsNum(a) && specIsNum(b) {
+		return specNumLess(a, b)
+	}
+	return specText(a) < specText(b)
+}
+
+func specOrder(tok token.Token, a, b Object) bool {
+	switch tok {
+	case token.Less:
+		return specLess(a, b)
+	case token.LessEq:
+		return specLess(a, b) || specEq(a, b)
+	case token.Greater:
+		return specLess(b, a)
+	case token.GreaterEq:
+		return specLess(b, a) || specEq(a, b)
+	}
+	return false
+}
+
+func isTypeError(err error) bool {
+	e, ok := err.(*Error)
+	return ok && e != nil && e.Cause == error(ErrType)
+}
+
+func specDocumentedError(err error) bool {
+	return err == error(ErrZeroDivision) || isTypeError(err)
+}
